@@ -16,6 +16,7 @@ mod session;
 mod settings;
 mod strains;
 mod strainsvec;
+mod utilsrep;
 mod util;
 
 fn main() {
@@ -46,6 +47,7 @@ fn main() {
         "miri-scenarios" => lifecycle::miri_scenarios(rest),
         "miri-run" => lifecycle::miri_run(rest),
         "strainsvec-replay" => strainsvec::main(rest),
+        "utils-replay" => utilsrep::main(rest),
         "mods-replay" => modsrep::main(rest),
         "convert-replay" => convert::replay_main(rest),
         "convert-record" => convert::record_main(rest),
